@@ -12,7 +12,7 @@ EXTENDS Integers, Sequences, FiniteSets, TLC, Json
 Trace == ndJsonDeserialize("trace.ndjson")
 VARIABLES l, viol, stat
 tvars == <<l, viol, stat>>
-Stat0 == [trees |-> 0, treekilled |-> 0, treeerr |-> 0, treeretried |-> 0, events |-> 0, killed |-> 0, ioerr |-> 0, completed |-> 0, broken |-> 0, cutmid |-> 0, leftovers |-> 0, offsets |-> 0]
+Stat0 == [enospc |-> 0, trees |-> 0, treekilled |-> 0, treeerr |-> 0, treeretried |-> 0, events |-> 0, killed |-> 0, ioerr |-> 0, completed |-> 0, broken |-> 0, cutmid |-> 0, leftovers |-> 0, offsets |-> 0]
 TInit == l = 1 /\ viol = {} /\ stat = Stat0
 Ev == Trace[l]
 V(why) == [p |-> "C17", l |-> l, tr |-> Ev.id, why |-> why, h |-> 0]
@@ -24,13 +24,14 @@ TCrash == /\ l <= Len(Trace) /\ Ev.op = "fcrash"
                       (IF e.load1 # -1 /\ ~complete1 THEN {V("after a cut-short write the name loads to partial contents")} ELSE {})
                       \cup (IF e.child = "ok" /\ ~complete1 THEN {V("a Store that reported success did not leave the complete bytes")} ELSE {})
                       \* C18 (errors surface): the write failed with an I/O error inside the child, so its Store must not have reported success
-                      \cup (IF e.mode = "ioerr" /\ e.limit < e.len /\ e.child = "ok"
+                      \cup (IF e.mode \in {"ioerr", "enospc"} /\ e.limit < e.len /\ e.child = "ok"
                             THEN {[p |-> "C18", l |-> l, tr |-> e.id, why |-> "the file backend does not return a failed write to the caller of Store", h |-> 0]} ELSE {})
                       \cup (IF e.restore # "ok" THEN {V("storing the node again after the failure does not succeed")}
                             ELSE IF ~(e.load2 = e.len /\ e.same2) THEN {V("storing the node again does not repair it (skipped because a file exists)")} ELSE {})
                  s == BumpIf(BumpIf(BumpIf(BumpIf(BumpIf(BumpIf([stat EXCEPT !.events = @ + 1], e.child = "killed", "killed"), e.child = "err", "ioerr"),
                         e.child = "ok", "completed"), e.child = "broken", "broken"), e.limit > 0 /\ e.limit < e.len, "cutmid"), e.extra > 0, "leftovers")
-             IN viol' = viol \cup v /\ stat' = s
+                 s9 == BumpIf(s, e.mode = "enospc" /\ e.child = "err", "enospc")
+             IN viol' = viol \cup v /\ stat' = s9
           /\ l' = l + 1
 (* The same at the level of a tree: MakeRoot over the file store is cut short at byte `limit` of a node file; in the I/O-error modes
    the same tree object (with or without a node cache) persists again once the condition is gone, in the crash modes the process
